@@ -86,6 +86,40 @@ func goverifCallEntry(lang, dir string, m *model.BinaryModel, p *model.Packet, f
 		return NewLuaWspGenerator(m).generateSubDissector(p.Name, p)
 	case "lua:fielddef":
 		return NewLuaWspGenerator(m).generateFieldDefinitionFromPacket(m, p)
+	case "go:test":
+		return NewGoGenerator(m).generateNewInstance("original", p)
+	case "rust:test":
+		return NewRustGenerator(m).generateUnitTestCode(p)
+	case "java:test":
+		return NewJavaGenerator(m).GenerateTestMethod(p)
+	case "python:test":
+		return NewPythonGenerator(m).generateTestCodeForPacket(p)
+	case "cpp:test":
+		return NewCppGenerator(m).generateUnitestForPacket(p)
+	case "go:testfiles", "python:testfiles":
+		var out map[string][]byte
+		var err error
+		if lang == "go" {
+			out, err = NewGoGenerator(m).Generate(m)
+		} else {
+			out, err = NewPythonGenerator(m).Generate(m)
+		}
+		if err != nil {
+			panic(err)
+		}
+		var names []string
+		for n := range out {
+			if strings.Contains(n, "_test.") {
+				names = append(names, n)
+			}
+		}
+		sort.Strings(names)
+		var b strings.Builder
+		for _, n := range names {
+			b.WriteString("\x00FILE " + n + "\n")
+			b.Write(out[n])
+		}
+		return b.String()
 	case "lua:file":
 		out, err := NewLuaWspGenerator(m).Generate(m)
 		if err != nil {
@@ -453,6 +487,24 @@ func replayEmit(o emitObl, runs []emitRun) map[string]interface{} {
 			if !strings.Contains(txt, k) {
 				reproduced, observed = true, "key "+k+" of the match table does not occur in the dispatch code"
 			}
+		}
+		show("base")
+	case "sample":
+		txt := strings.ToLower(t("base"))
+		if !strings.Contains(txt, "fieldundertest") && !strings.Contains(txt, "field_under_test") {
+			reproduced, observed = true, "the sample message of the emitted test never mentions the member"
+		}
+		show("base")
+	case "sized":
+		// char[6] in the concrete cell: the sample literal must have six characters
+		ok6 := false
+		for _, q := range []string{"\"xxxxxx\"", "\"111111\"", "\"aaaaaa\""} {
+			if strings.Contains(t("base"), q) {
+				ok6 = true
+			}
+		}
+		if !ok6 && !strings.Contains(t("base"), "6") {
+			reproduced, observed = true, "no six-character sample literal (and no use of the length 6) for the char[6] member"
 		}
 		show("base")
 	case "advance", "nested", "scope", "returns":
